@@ -18,7 +18,7 @@ LEVEL = 'exploration'
 TECHNIQUE = 'bounded exhaustive enumeration of mention programs x lag/lead option lattice against a reference classifier written from the statement'
 RULE = ('mentions = 3 names x {variable, {parameter}, <error>} x offsets {none, -2, +2, label}; LHS = 3 names x {none, +1}; programs: 1 equation x 1..2 RHS mentions, '
         '2 equations x 1 RHS mention (quick) plus 3 equations x 1 RHS mention over a reduced mention set and 2 equations x 2 RHS mentions over a reduced set (thorough); '
-        'option lattice lags, leads in {None,0,1,3} x min_lags, min_leads in {0,1,3}. non-trivial = accepted program (classification compared) or rejection compared')
+        'plus 39 name spellings one case-change/affix away from a keyword or helper; option lattice lags, leads in {None,0,1,3} x min_lags, min_leads in {0,1,3}. non-trivial = accepted program (classification compared) or rejection compared')
 ASSUMPTIONS = [
     'when a script contains both a kind clash and a double definition either error class is accepted',
     'explicit lags=/leads= replace the derived value outright (min_lags=/min_leads= only raise a derived value), as the docstring says ("impose")',
